@@ -517,6 +517,9 @@ func TestC05(t *testing.T) {
 		} else {
 			c.Kind = hist.FarmKinds[(u.N(len(hist.FarmKinds), "kind")+shard)%len(hist.FarmKinds)]
 		}
+		if c.Opts.Fork != 0 && c.Kind == "OLVM" {
+			c.Kind = "SEND" // no EVM without the fork
+		}
 		c.Gap = 1 + u.N(10, "gap")
 		if u.N(20, "longgap") == 0 {
 			c.Gap = 40 + u.N(80, "gaplong") // occasionally much later ("all later heights")
